@@ -111,7 +111,8 @@ BIN['contains_in_proxy'] = operator.contains
 UN = {
     'len': len, 'iter': lambda v: list(iter(v)), 'hash': hash, 'bool': bool, 'str': str, 'repr': repr,
     'format': lambda v: format(v, ''), 'fmt_width': lambda v: "{:>5}".format(v), 'int': int, 'float': float,
-    'complex': complex, 'round': round, 'round1': lambda v: round(v, 1), 'trunc': math.trunc, 'floor': math.floor,
+    'complex': complex, 'round': round, 'round1': lambda v: round(v, 1), 'round0': lambda v: round(v, 0),
+    'round_neg1': lambda v: round(v, -1), 'round_none': lambda v: round(v, None), 'trunc': math.trunc, 'floor': math.floor,
     'ceil': math.ceil, 'abs': abs, 'neg': operator.neg, 'pos': operator.pos, 'invert': operator.invert,
     'isinstance_int': lambda v: isinstance(v, int), 'isinstance_str': lambda v: isinstance(v, str),
     'isinstance_list': lambda v: isinstance(v, (list, tuple)), 'not': operator.not_,
